@@ -12,9 +12,14 @@ func (s *syntaxSlicePositiveStepSubscript) getIndexes(srcLength int) []int {
 	loopStart := s.getLoopStart(srcLength)
 	loopEnd := s.getLoopEnd(srcLength)
 
+	step := s.step.number
+	if step > srcLength {
+		step = srcLength
+	}
+
 	index, result := 0, make([]int, srcLength)
-	if s.step.number > 0 {
-		for i := loopStart; i < loopEnd; i += s.step.number {
+	if step > 0 {
+		for i := loopStart; i < loopEnd; i += step {
 			result[index] = i
 			index++
 		}
